@@ -164,7 +164,7 @@ int kalign_check_msa(struct msa* msa, int exit_on_error)
         qsort(a, msa->numseq, sizeof(struct sort_struct*),sort_by_name);
 
         for(i = 1; i < msa->numseq;i++){
-                if(strncmp(*a[i-1]->name, *a[i]->name,MSA_NAME_LEN) == 0){
+                if(strcmp(*a[i-1]->name, *a[i]->name) == 0){
                         /* WARNING_MSG("Name: %s is duplicated", a[i]->name); */
                         if(a[i-1]->chksum == a[i]->chksum){
                                 if(!msa->quiet){
@@ -249,9 +249,9 @@ int sort_by_both(const void *a, const void *b)
         struct sort_struct_name_chksum* const *one = a;
         struct sort_struct_name_chksum* const *two = b;
 
-        if(strncmp(*(*one)->name, *(*two)->name,MSA_NAME_LEN) < 0){
+        if(strcmp(*(*one)->name, *(*two)->name) < 0){
                 return -1;
-        }else if(strncmp(*(*one)->name, *(*two)->name,MSA_NAME_LEN) == 0 ){
+        }else if(strcmp(*(*one)->name, *(*two)->name) == 0 ){
                 if((*one)->chksum > (*two)->chksum){
                         return -1;
                 }else{
@@ -266,7 +266,7 @@ int sort_by_name(const void *a, const void *b)
         struct sort_struct_name_chksum* const *one = a;
         struct sort_struct_name_chksum* const *two = b;
 
-        if(strncmp(*(*one)->name, *(*two)->name,MSA_NAME_LEN) < 0){
+        if(strcmp(*(*one)->name, *(*two)->name) < 0){
                 return -1;
         }else{
                 return 1;
